@@ -249,7 +249,15 @@ func (c *Ctx) doReplay(cs Case) {
 	for i := 0; i < 5; i++ {
 		inst := cs.Make()
 		h.BeginHooks()
-		r := vrt.Run(cs.Opts, c.replay.Choices, inst.Body)
+		opts := cs.Opts
+		opts.StepTrace = i == 0 && os.Getenv("VERIF_STEPS") != ""
+		r := vrt.Run(opts, c.replay.Choices, inst.Body)
+		if opts.StepTrace {
+			// VERIF_STEPS=1: the replayed schedule, one line per scheduling decision
+			for n, st := range r.StepTrace {
+				fmt.Fprintf(os.Stderr, "step %4d  %s\n", n, st)
+			}
+		}
 		o := ""
 		if inst.Outcome != nil {
 			o = inst.Outcome()
